@@ -130,6 +130,13 @@ FPar(c1, c2)       == Term("par", 0, <<>>, <<>>, <<c1, c2>>, FALSE) \* c1 | csin
 \* (code = 1 stdin + 2 stdout + 4 stderr), so that pipe() hands out 0/1/2 as
 \* pipe ends; the last stage writes to descriptor 3, a file read afterwards
 FClosed(cmd, code) == Term("closed", code, <<>>, <<>>, <<cmd>>, FALSE) \* { cmd >&3; } 3>f <&- >&-; csink t < f
+\* DESCRIPTOR TABLE AT THE TIME A PIPE IS CREATED: any scenario run while a
+\* subset of the descriptors 0, 1, 2 is closed (n = 1 stdin + 2 stdout +
+\* 4 stderr), so that the pipes of command substitutions, of every pipeline
+\* stage and the files of here-documents get the numbers 0 / 1 / 2; flag:
+\* closed with `exec` for the rest of the script instead of for a brace
+\* group.  The payload must arrive all the same.
+FEnv(sc, code, ex) == Term("env", code, <<>>, <<>>, <<sc>>, ex)   \* { sc; } <&- >&- 2>&-   |  exec <&- ...; sc
 \* command substitution whose output is not valid UTF-8
 FVarU(word)        == Term("varu", 0, <<>>, <<>>, <<word>>, FALSE)  \* v=WORD; valu t "$v"
 
@@ -178,8 +185,10 @@ UReps(v) == LET a == Clean(v)
 \* UTF-8); lossy = a writer may legitimately see EPIPE because the consumer
 \* stops reading.  off = -1: outside the compact form (never generated).
 Obs(tag, d) == [tag |-> tag, off |-> IF d.head = <<>> THEN d.off ELSE -1, reps |-> {DRep(d)}]
+RECURSIVE Expect(_)
 Expect(sc) ==
-  CASE sc.k \in {"sink", "file", "closed"} -> {Obs("t", Out(sc.ch[1]))}
+  CASE sc.k = "env" -> Expect(sc.ch[1])
+    [] sc.k \in {"sink", "file", "closed"} -> {Obs("t", Out(sc.ch[1]))}
     [] sc.k \in {"var", "arg"}   -> {Obs("t", Val(sc.ch[1]))}
     [] sc.k = "varu"             -> LET v == Val(sc.ch[1])
                                     IN {[tag |-> "t", off |-> IF Clean(v).head = <<>> THEN v.off ELSE -1, reps |-> UReps(v)]}
@@ -188,7 +197,8 @@ Expect(sc) ==
     [] sc.k = "read"             -> {Obs("x", ReadLine(Out(sc.ch[1])))}
                                       \cup (IF sc.flag THEN {Obs("t", ReadRest(Out(sc.ch[1])))} ELSE {})
     [] sc.k = "par"              -> {Obs("a", Out(sc.ch[1])), Obs("b", Out(sc.ch[2]))}
-Lossy(sc) == sc.k = "read" /\ ~sc.flag
+RECURSIVE Lossy(_)
+Lossy(sc) == IF sc.k = "env" THEN Lossy(sc.ch[1]) ELSE sc.k = "read" /\ ~sc.flag
 
 -----------------------------------------------------------------------------
 (* 2. KERNEL RULES                                                         *)
